@@ -33,7 +33,9 @@ def gen_case(seed):
     if kind == "waiter_timeout":
         spec, keys = ic.gen_program(rnd, n=rnd.randint(1, 2), waiter_timeout=dur)
     else:
-        spec, keys = ic.gen_program(rnd, n=1, retry_delay=dur)
+        # one pending retry, or two with different delays (the run is quiet between the first and the second retry)
+        delays = dur if rnd.random() < 0.5 else [dur * rnd.choice([0.2, 0.4]), dur]
+        spec, keys = ic.gen_program(rnd, n=1, retry_delay=delays)
     spec["sched_seed"] = seed
     restart = rnd.choice([None, None, "during"])
     return {"seed": seed, "kind": kind, "dur": dur, "I": dur * ratio, "spec": spec, "keys": keys, "restart": restart, "restart_frac": rnd.choice([0.2, 0.5, 0.9])}
